@@ -101,6 +101,8 @@ var c11Sentences = []string{
 	"plain ascii line one\nline two\ttabbed\r\n",
 	"Wait… what?",
 	"x\u0085y next-line control",
+	"caf\uFFFD au lait, d\u00e9j\u00e0 vu \uFFFD",
+	"zero\u200Bwidth and \uFEFF inside, nbsp\u00A0here",
 }
 
 // toLatin re-encodes s as Windows-1252 / ISO-8859-1 bytes; ok=false when a
@@ -199,6 +201,33 @@ func c11Run(c *core.Ctx) {
 		unit++
 		if c.Mine(unit) {
 			try(bom.Bytes, 0, "B:behind-bom")
+		}
+	}
+	// B2: every sequence of <= 3 items over specially encoded scalars (U+FFFD whose
+	// decoding coincides with Go's error rune, BOM inside text, NEL, NBSP, the
+	// last code points of each length, surrogate neighbours, noncharacters) and
+	// ASCII, cut at every byte
+	specials := [][]byte{
+		{0xEF, 0xBF, 0xBD}, {0xEF, 0xBB, 0xBF}, {0xC2, 0x85}, {0xC2, 0xA0}, {0xC2, 0x80}, {0xDF, 0xBF}, {0xE0, 0xA0, 0x80},
+		{0xED, 0x9F, 0xBF}, {0xEE, 0x80, 0x80}, {0xEF, 0xBF, 0xBF}, {0xEF, 0xBF, 0xBE}, {0xF0, 0x90, 0x80, 0x80}, {0xF4, 0x8F, 0xBF, 0xBF},
+		{0xE2, 0x80, 0xA8}, {'a'}, {'\n'}, {0x7F},
+	}
+	for i := range specials {
+		unit++
+		if !c.Mine(unit) || c.Expired() {
+			continue
+		}
+		for j := range specials {
+			for k := -1; k < len(specials); k++ {
+				s := append(append([]byte{'x'}, specials[i]...), specials[j]...)
+				if k >= 0 {
+					s = append(s, specials[k]...)
+				}
+				for cut := 1; cut <= len(s); cut++ {
+					try(s[:cut], 0, "B2:special-scalars")
+				}
+				try(s[1:], 0, "B2:special-scalars")
+			}
 		}
 	}
 	// C: real text at every cut, and as Latin bytes
